@@ -151,7 +151,7 @@ def props():
     # -- paragraph
     add("paragraph", "alignment", lambda r: E(r, text.PP_ALIGN, skip=("MIXED",)), none_ok=True)
     add("paragraph", "level", lambda r: r.randint(0, 8), bad=lambda r: r.choice([-1, 9, "1"]))
-    add("paragraph", "line_spacing", lambda r: r.choice([1.0, 1.5, 0.9, 2, 0.0, 132.0, r.uniform(0, 132), d_spc(r)]), none_ok=True, quantum=127,
+    add("paragraph", "line_spacing", lambda r: d_spc(r) if r.random() < 0.45 else r.choice([1.0, 1.5, 0.9, 2, 0.0, 132.0, r.uniform(0, 132)]), none_ok=True, quantum=127,
         bad=lambda r: r.choice([-0.5, 132.5, Emu(20116801), "1"]))
     add("paragraph", "space_before", d_spc, none_ok=True, quantum=127, bad=lambda r: r.choice([Emu(20116801), Emu(-1), 1.5, "3"]))
     add("paragraph", "space_after", d_spc, none_ok=True, quantum=127, bad=lambda r: r.choice([Emu(20116801), Emu(-1), 1.5, "3"]))
@@ -432,7 +432,11 @@ def discover(prs, last_only=False):
             w.add("notes", ns, sp + ".notes_slide")
             if ns.notes_text_frame is not None:
                 _walk_text_frame(w, ns.notes_text_frame, sp + ".notes_slide.notes_text_frame")
-    for i, l in enumerate(prs.slide_layouts):
+    try:
+        layouts = list(prs.slide_layouts)
+    except IndexError:      # a presentation part without any slide master (thinned input decks)
+        layouts = []
+    for i, l in enumerate(layouts):
         w.add("layout", l, f"prs.slide_layouts[{i}]")
         if i < 3:
             w.add("background", l.background, f"prs.slide_layouts[{i}].background")
